@@ -463,6 +463,79 @@ theorem M_resume {fb fb' : Fibers} {t : Task} {rest : List Task} {tm : List Time
     · rw [e, hcg] at hh; cases hh
     · rw [hcan h e] at hh; rw [heq h e]; exact hm.e h hh
 
+/-- `task.fiber->sched_id++` at resume: bumping the sched_id of a fiber that is not suspended (and not cancelled), with no
+    new task, makes everything that carried its sched_id stale and keeps the invariant -/
+theorem M_bump_quiet {fb fb' : Fibers} {rq : List Task} {tm : List Timer} {en : Ent} {cur : Option Nat} (g : Nat)
+    (hm : M fb rq tm en cur)
+    (hsg : (fb' g).sched = (fb g).sched + 1) (hstg : (fb' g).status = (fb g).status)
+    (hcg : (fb' g).canceled = (fb g).canceled) (hoth : ∀ h, h ≠ g → fb' h = fb h)
+    (hnp : (fb g).status ≠ .pending) (hnc : (fb g).canceled = false) :
+    M fb' rq tm en cur ∧ LT fb' rq g = 0 ∧ ¬ liveTimer fb' tm g ∧ ¬ liveEntry fb' en g := by
+  have hLToth : ∀ h, h ≠ g → LT fb' rq h = LT fb rq h := by
+    intro h hh; unfold LT; rw [hoth h hh]
+  have hLTg : LT fb' rq g = 0 := by
+    simp only [LT, hsg]
+    rw [List.countP_eq_zero]
+    intro u hu
+    have := hm.a2 u hu
+    simp only [Bool.and_eq_true, beq_iff_eq, not_and]
+    intro hf; rw [hf] at this; omega
+  have hnoT : ¬ liveTimer fb' tm g := by
+    rintro ⟨u, hu, _, h3, h4⟩
+    have := hm.a3 u hu; rw [h3] at this; omega
+  have hnoE : ¬ liveEntry fb' en g := by
+    rintro ⟨c, p, hp, h3, h4⟩
+    have := hm.a1 c p hp; rw [h3] at this; omega
+  have hTo : ∀ h, h ≠ g → (liveTimer fb' tm h ↔ liveTimer fb tm h) :=
+    fun h hh => liveTimer_congr tm h (by rw [hoth h hh])
+  have hEo : ∀ h, h ≠ g → (liveEntry fb' en h ↔ liveEntry fb en h) :=
+    fun h hh => liveEntry_congr en h (by rw [hoth h hh])
+  refine ⟨⟨?_, ?_, ?_, ?_, ?_, ?_, ?_, ?_, ?_, ?_⟩, hLTg, hnoT, hnoE⟩
+  · intro c p hp
+    have := hm.a1 c p hp
+    by_cases h : p.fiber = g
+    · rw [h] at this ⊢; omega
+    · rw [hoth _ h]; exact this
+  · intro u hu
+    have := hm.a2 u hu
+    by_cases h : u.fiber = g
+    · rw [h] at this ⊢; omega
+    · rw [hoth _ h]; exact this
+  · intro u hu
+    have := hm.a3 u hu
+    by_cases h : u.fiber = g
+    · rw [h] at this ⊢; omega
+    · rw [hoth _ h]; exact this
+  · intro f
+    by_cases h : f = g
+    · subst h; rw [hLTg]; exact Nat.zero_le 1
+    · rw [hLToth f h]; exact hm.d0 f
+  · intro f hst
+    by_cases h : f = g
+    · subst h; rw [hstg] at hst; exact absurd hst hnp
+    · rw [hLToth f h, hTo f h, hEo f h]; rw [hoth f h] at hst; exact hm.d1 f hst
+  · intro f hst hcur
+    by_cases h : f = g
+    · subst h; exact ⟨hnoT, hnoE⟩
+    · rw [hTo f h, hEo f h]; rw [hoth f h] at hst; exact hm.d2 f hst hcur
+  · intro f hlt
+    by_cases h : f = g
+    · subst h; rw [hLTg] at hlt; cases hlt
+    · rw [hTo f h, hEo f h]; rw [hLToth f h] at hlt; exact hm.d3 f hlt
+  · intro f hst
+    by_cases h : f = g
+    · subst h; rw [hstg] at hst; exact hm.d4 f hst
+    · rw [hoth f h] at hst; exact hm.d4 f hst
+  · intro f hcur
+    have := hm.d5 f hcur
+    by_cases h : f = g
+    · subst h; rw [hstg]; exact this
+    · rw [hoth f h]; exact this
+  · intro f hcan
+    by_cases h : f = g
+    · subst h; rw [hcg, hnc] at hcan; cases hcan
+    · rw [hLToth f h]; rw [hoth f h] at hcan; exact hm.e f hcan
+
 /-! ### the invariant on worlds -/
 
 def WM (w : World) : Prop := M w.fibers w.runq w.timers w.ent w.current
@@ -1077,18 +1150,20 @@ theorem finishFiber_W {w : World} {f : Nat} {err : Bool} (hm : WM w) (hcur : w.c
   · exact ⟨hq.2.1, hq.2.2⟩
 
 /-- the run-phase iteration, field by field -/
-theorem loopRunTask_cases (w : World) :
-    (w.runq = [] ∧ (loopRunTask w).1 = w) ∨
-    (∃ t rest, w.runq = t :: rest ∧ (loopRunTask w).1.runq = rest ∧ (loopRunTask w).1.timers = w.timers ∧
-      (loopRunTask w).1.chans = w.chans ∧
-      (∀ i, i ≠ t.fiber → (loopRunTask w).1.fibers i = w.fibers i) ∧
-      ((loopRunTask w).1.fibers t.fiber).sched = (w.fibers t.fiber).sched ∧
-      ((loopRunTask w).1.fibers t.fiber).canceled = false ∧
+theorem loopRunTask_cases (cfg : Cfg) (w : World) :
+    (w.runq = [] ∧ (loopRunTask cfg w).1 = w) ∨
+    (∃ t rest, w.runq = t :: rest ∧ (loopRunTask cfg w).1.runq = rest ∧ (loopRunTask cfg w).1.timers = w.timers ∧
+      (loopRunTask cfg w).1.chans = w.chans ∧
+      (∀ i, i ≠ t.fiber → (loopRunTask cfg w).1.fibers i = w.fibers i) ∧
+      ((loopRunTask cfg w).1.fibers t.fiber).sched =
+        (if t.expected = (w.fibers t.fiber).sched ∧ cfg.resumeBumps = true then (w.fibers t.fiber).sched + 1
+         else (w.fibers t.fiber).sched) ∧
+      ((loopRunTask cfg w).1.fibers t.fiber).canceled = false ∧
       (((t.expected ≠ (w.fibers t.fiber).sched ∨ fiberCanResume (w.fibers t.fiber) = false) ∧
-          (loopRunTask w).1.current = w.current ∧
-          ((loopRunTask w).1.fibers t.fiber).status = (w.fibers t.fiber).status) ∨
+          (loopRunTask cfg w).1.current = w.current ∧
+          ((loopRunTask cfg w).1.fibers t.fiber).status = (w.fibers t.fiber).status) ∨
        (t.expected = (w.fibers t.fiber).sched ∧ fiberCanResume (w.fibers t.fiber) = true ∧
-          (loopRunTask w).1.current = some t.fiber ∧ ((loopRunTask w).1.fibers t.fiber).status = .alive))) := by
+          (loopRunTask cfg w).1.current = some t.fiber ∧ ((loopRunTask cfg w).1.fibers t.fiber).status = .alive))) := by
   unfold loopRunTask
   cases hq : w.runq with
   | nil => left; exact ⟨rfl, rfl⟩
@@ -1115,33 +1190,70 @@ theorem loopRunTask_cases (w : World) :
 
 theorem ent_of_chans {w w' : World} (h : w'.chans = w.chans) : w'.ent = w.ent := by unfold World.ent; rw [h]
 
-theorem loopRunTask_W {w : World} (hi : WInv w) (hcur : w.current = none) : WInv (loopRunTask w).1 := by
+theorem loopRunTask_W {cfg : Cfg} {w : World} (hi : WInv w) (hcur : w.current = none) : WInv (loopRunTask cfg w).1 := by
   obtain ⟨hm, hqq⟩ := hi
-  rcases loopRunTask_cases w with ⟨_, he⟩ | ⟨t, rest, hq, hr, ht, hc, hoth, hs, hcan, hcase⟩
+  rcases loopRunTask_cases cfg w with ⟨_, he⟩ | ⟨t, rest, hq, hr, ht, hc, hoth, hs, hcan, hcase⟩
   · rw [he]; exact ⟨hm, hqq⟩
   · unfold WM at hm; rw [hcur, hq] at hm
-    have hsall : ∀ h, ((loopRunTask w).1.fibers h).sched = (w.fibers h).sched := by
+    -- the fibers after the iteration, with the sched_id of the task's fiber put back: the iteration without the bump
+    let fb' := (loopRunTask cfg w).1.fibers
+    let fb1 : Fibers := fun h => if h = t.fiber then { fb' h with sched := (w.fibers h).sched } else fb' h
+    have hsall : ∀ h, (fb1 h).sched = (w.fibers h).sched := by
       intro h; by_cases e : h = t.fiber
-      · rw [e]; exact hs
-      · rw [hoth h e]
+      · simp [fb1, e]
+      · simp only [fb1, e, ↓reduceIte]; show ((loopRunTask cfg w).1.fibers h).sched = _; rw [hoth h e]
+    have hfb1o : ∀ h, h ≠ t.fiber → fb1 h = w.fibers h := by
+      intro h e; simp only [fb1, e, ↓reduceIte]; exact hoth h e
+    have hfb1st : (fb1 t.fiber).status = (fb' t.fiber).status := by simp [fb1]
+    have hfb1can : (fb1 t.fiber).canceled = false := by simp only [fb1, ↓reduceIte]; exact hcan
+    -- from fb1 to fb': identity, or the bump of t.fiber
+    have hfin : ∀ {rq : List Task} {cur : Option Nat}, M fb1 rq w.timers w.ent cur →
+        (t.expected = (w.fibers t.fiber).sched → (fb1 t.fiber).status ≠ .pending) →
+        M fb' rq w.timers w.ent cur ∧
+        ((LT fb1 rq t.fiber = 0 ∧ ¬ liveTimer fb1 w.timers t.fiber ∧ ¬ liveEntry fb1 w.ent t.fiber) →
+          (LT fb' rq t.fiber = 0 ∧ ¬ liveTimer fb' w.timers t.fiber ∧ ¬ liveEntry fb' w.ent t.fiber)) := by
+      intro rq cur hM hnp
+      by_cases hb : t.expected = (w.fibers t.fiber).sched ∧ cfg.resumeBumps = true
+      · have hsg : (fb' t.fiber).sched = (fb1 t.fiber).sched + 1 := by
+          rw [hsall]; show ((loopRunTask cfg w).1.fibers t.fiber).sched = _; rw [hs, if_pos hb]
+        obtain ⟨a, b⟩ := M_bump_quiet (fb' := fb') t.fiber hM hsg hfb1st.symm (by simp [fb1])
+          (fun h e => by simp [fb1, e]) (hnp hb.1) hfb1can
+        exact ⟨a, fun _ => b⟩
+      · have heq : fb' = fb1 := by
+          funext h
+          by_cases e : h = t.fiber
+          · subst e
+            have : (fb' t.fiber).sched = (w.fibers t.fiber).sched := by
+              show ((loopRunTask cfg w).1.fibers t.fiber).sched = _; rw [hs, if_neg hb]
+            simp only [fb1, ↓reduceIte, ← this]
+          · simp [fb1, e]
+        rw [heq]; exact ⟨hM, fun h => h⟩
     rcases hcase with ⟨hwhy, hcur', hst⟩ | ⟨hlive, hres, hcur', hst⟩
     · refine ⟨?_, fun g hg => by rw [hcur', hcur] at hg; cases hg⟩
       unfold WM; rw [hr, ht, ent_of_chans hc, hcur', hcur]
-      apply M_pop hm hsall
-      · intro h; by_cases e : h = t.fiber
-        · rw [e]; exact hst
-        · rw [hoth h e]
-      · intro h e; rw [hoth h e]
-      · exact hcan
-      · rcases hwhy with h1 | h1
-        · exact Or.inl h1
-        · right; intro hp; unfold fiberCanResume at h1; rw [hp] at h1; cases h1
-    · obtain ⟨hM, hQ⟩ := M_resume (fb' := (loopRunTask w).1.fibers) hm hsall hlive hst
-        (fun h e => by rw [hoth h e]) (fun h e => by rw [hoth h e]) hcan
+      have hM1 : M fb1 rest w.timers w.ent none := by
+        apply M_pop hm hsall
+        · intro h; by_cases e : h = t.fiber
+          · rw [e, hfb1st]; exact hst
+          · rw [hfb1o h e]
+        · intro h e; rw [hfb1o h e]
+        · exact hfb1can
+        · rcases hwhy with h1 | h1
+          · exact Or.inl h1
+          · right; intro hp; unfold fiberCanResume at h1; rw [hp] at h1; cases h1
+      refine (hfin hM1 ?_).1
+      intro hl
+      rcases hwhy with h1 | h1
+      · exact absurd hl h1
+      · rw [hfb1st]; show ((loopRunTask cfg w).1.fibers t.fiber).status ≠ _
+        rw [hst]; intro hp; unfold fiberCanResume at h1; rw [hp] at h1; cases h1
+    · obtain ⟨hM, hQ⟩ := M_resume (fb' := fb1) hm hsall hlive (by rw [hfb1st]; exact hst)
+        (fun h e => by rw [hfb1o h e]) (fun h e => by rw [hfb1o h e]) hfb1can
+      obtain ⟨hM', hQ'⟩ := hfin hM (fun _ => by rw [hfb1st]; show ((loopRunTask cfg w).1.fibers t.fiber).status ≠ _; rw [hst]; intro c; cases c)
       refine ⟨?_, ?_⟩
-      · unfold WM; rw [hr, ht, ent_of_chans hc, hcur']; exact hM
+      · unfold WM; rw [hr, ht, ent_of_chans hc, hcur']; exact hM'
       · intro g hg; rw [hcur'] at hg; injection hg with hg; subst hg
-        unfold WQuiet; rw [hr, ht, ent_of_chans hc]; exact hQ
+        unfold WQuiet; rw [hr, ht, ent_of_chans hc]; exact hQ' hQ
 
 /-! ### folds of wake-ups (close, timer phase) -/
 
